@@ -121,8 +121,18 @@ func newMachine(rt *rapid.T, o machineOpts) *machine {
 		if o.ShareTable && i > 0 && rapid.Bool().Draw(rt, "share") {
 			shareWith = rapid.IntRange(0, i-1).Draw(rt, "sharewith")
 		}
+		name := fmt.Sprintf("ig%d", i+1)
+		if o.CustomDecls == nil && rapid.IntRange(0, 5).Draw(rt, "namedlikesource") == 0 {
+			// nothing stops an integration from carrying the name of a source
+			name = sources[rapid.IntRange(0, len(sources)-1).Draw(rt, "likesrc")].Name
+			for _, x := range m.decls {
+				if x.Name == name {
+					name = fmt.Sprintf("ig%d", i+1)
+				}
+			}
+		}
 		do := gen.DeclOpts{Kinds: o.Kinds, NeedParent: o.NeedParent, AllowFilters: o.Filters, AllowNotify: o.Notify, Pool: m.pool,
-			Name: fmt.Sprintf("ig%d", i+1), Table: table, Event: o.Event}
+			Name: name, Table: table, Event: o.Event}
 		if o.SameEvent && sharedEv != nil {
 			do.FixedEvent = refmodel.CloneEvent(sharedEv, true)
 		}
@@ -204,7 +214,9 @@ func newMachine(rt *rapid.T, o machineOpts) *machine {
 				}
 				d.Sources[i].Stop = uint64(rapid.IntRange(lo, lo+12).Draw(rt, "stop"))
 			}
-			if rapid.IntRange(0, 3).Draw(rt, "numbersasstrings") == 0 {
+			if rapid.IntRange(0, 2).Draw(rt, "omitzero") == 0 {
+				d.Sources[i].OmitZero = true
+			} else if rapid.IntRange(0, 3).Draw(rt, "numbersasstrings") == 0 {
 				// start / stop given as (zero-padded) decimal strings
 				d.Sources[i].Pad = rapid.IntRange(1, 6).Draw(rt, "pad")
 				m.label("start-stop-as-strings")
